@@ -276,7 +276,8 @@ def _shortcut_by_scenario(prog, rep, sc, ds):
             sk = dict(ch)
             vec = [sl for sl, h in sk.items() if h in ("VectorVariable", "VectorExpression")]
             all_vv = bool(vec) and all(sk[sl] == "VectorVariable" for sl in vec)
-            for same in ((True, False) if len(vec) == 2 and all_vv else (True,)):
+            # two operands of different kinds cannot be one object
+            for same in ((True, False) if len(vec) == 2 and all_vv else ((False,) if len(vec) == 2 and len({sk[sl] for sl in vec}) == 2 else (True,))):
                 try:
                     paths = run(kind, sk, same)
                 except TooManyPaths:
@@ -436,8 +437,14 @@ def check(prog, rep):
                 region, it = p, [src(g.iter) for g in p.generators if "constraints" in src(g.iter)][0]
                 break
             p = getattr(p, "_parent", None)
+        if region is not None and it.isidentifier():
+            vals_ = [v for v in local_assignments(f.node).get(it, []) if isinstance(v, ast.AST)]
+            if len(vals_) == 1:
+                it = src(vals_[0])          # a local bound once to the constraint list
         if region is None:
             rep.undecided(f"Problem.variables: the shortcut is applied to a constraint at {f.module.rel}:{lp.lineno}, but not inside a loop over the constraints")
+        elif it not in ("self._constraints", "self.constraints") and not (it.startswith("self._constraints[") or it.startswith("self.constraints[")):
+            rep.undecided(f"Problem.variables: the check ranges over `{it[:40]}`; whether that is every constraint is not decided")
         elif it not in ("self._constraints", "self.constraints"):
             rep.ob("R16.3", "Problem.variables", False, f"the shortcut is taken without checking that every constraint depends on the same vector: the check ranges over `{it}`, not over all constraints", loc=f"{f.module.rel}:{region.lineno}", detail="all-constraints-agree")
         else:
